@@ -25,8 +25,8 @@ RULE = ("each forked case runs a ProgGen program through the production Logger w
         "distinct by (fault kind x message kind hit) signature of the run plus program shape. Part of the messages go through the standard "
         "library bridge (EliotHandler): plain records, object messages, text with per cent signs and no arguments, arguments that do not fit "
         "the format string. Part 'shutdown': fresh interpreters whose leftover objects (module global, reference cycle, function "
-        "attribute) log messages, actions and tasks with rich field values from __del__ while the interpreter is being torn down; every "
-        "such call must return")
+        "attribute) log messages, actions and tasks with rich field values from __del__ while the interpreter is being torn down (destinations: stdout as text/binary, to_file, a "
+        "function of the main module writing to a raw descriptor); every such call must return, and every such object must have been finalized")
 ASSUMPTIONS = ["destinations, serializers and extractors raise Exception subclasses; extractors return dicts",
                "a MemoryLogger appears as explicit logger argument of part of the calls (it must not raise either); what it records is judged by C14/C16"]
 
@@ -51,7 +51,9 @@ def plan(tier, seed):
     specs = [{"seed": seed, "i": i} for i in range(n)]
     combos = [(d, hw, v) for d in shutdown.DESTS for hw in shutdown.HOWS for v in sorted(shutdown.EXPECTED_JSON)]
     random.Random("%s:C07:shutdown" % seed).shuffle(combos)
-    specs += [{"part": "shutdown", "seed": seed, "dest": d, "how": hw, "value": v} for d, hw, v in (combos[:12] if tier == "quick" else combos)]
+    if tier == "quick":
+        combos = [c_ for d in shutdown.DESTS for c_ in [x for x in combos if x[0] == d][:3]]  # three per kind of destination
+    specs += [{"part": "shutdown", "seed": seed, "dest": d, "how": hw, "value": v} for d, hw, v in combos]
     return specs
 
 
